@@ -547,6 +547,36 @@ def sql_run(folder, s0, s1, fault):
     return px.events, raised, out, detail
 
 
+def sql_large(chk, stats):
+    """A previous checkpoint larger than SQLite's page cache: a failed save must still leave it loadable (a rollback that only
+    works while everything fits in memory is not a rollback)."""
+    g = np.random.default_rng(int(chk.rng.below(2**31)))     # data only
+    n, e = 30000, 2
+
+    def st(tag, n):
+        return [np.array([[0.0, 1.0], [1.0, 2.0]]).T, np.array([0.5, 0.25]), g.standard_normal((5, 2)), e, 5, 2, None, True,
+                f"folder{tag}", 7, np.random.default_rng(1).bit_generator.state, "model", [f"sampler{tag}", 1], f"loss{tag}", n,
+                g.random((n, 2)), g.random(n), g.random((n, e, 5, 2)), np.arange(n), np.arange(n) % 2]
+
+    s0, s1 = st("A", n), st("B", n + 10)
+    folder = SCRATCH / f"{os.getpid()}" / "c06_sql_large"
+    events, _, out, _ = sql_run(folder, s0, s1, None)
+    count = 0
+    for i in range(len(events)):
+        for after in (False, True):
+            ev, raised, out, detail = sql_run(folder, s0, s1, (i, after))
+            count += 1
+            stats["sqlite-large"] += 1
+            committed = after and events[i][0] == "commit"        # a failure after the commit: the new checkpoint is in place
+            if raised and out != ("SNew" if committed else "SOld"):
+                chk.violation({"kind": "sqlite_previous_lost", "statement": f"large:{i}:{'after' if after else 'before'}"},
+                              {"failed": "oracle:sqlite", "detail": f"previous checkpoint of {n} rows (~{n * e * 80 // 2**20} MiB of series) not "
+                               f"loadable after a failure {'after' if after else 'at'} statement {i}: outcome {out} {detail}",
+                               "case": {"sql_large": {"statement": i, "after": after}}})
+    shutil.rmtree(folder, ignore_errors=True)
+    return count
+
+
 # ------------------------------------------------------------------------------------------------ the check
 def run_fs_scenario(chk, sc, root, recs, stats, expect):
     s = Scenario(sc, root)
@@ -591,6 +621,68 @@ def run_fs_scenario(chk, sc, root, recs, stats, expect):
     return s
 
 
+CSV_NAME = "calibration_results.csv"
+
+
+def large_file_cuts(chk, stats):
+    """Files larger than any read buffer: a save torn beyond the first MiB of calibration_results.csv (whose first MiB is
+    unchanged, the history being append-only) with byte-identical pickles must not be restored as a truncated history."""
+    from black_it.loss_functions.minkowski import MinkowskiLoss
+    from black_it.samplers.random_uniform import RandomUniformSampler
+    from black_it.schedulers.round_robin import RoundRobinScheduler
+    from black_it.utils.json_pandas_checkpointing import load_calibrator_state, save_calibrator_state
+
+    rng = np.random.default_rng(int(chk.rng.below(2**31)))     # data only
+    n_a, extra = 52000, 400
+    root = SCRATCH / f"{os.getpid()}" / "c06_large"
+    if root.exists():
+        shutil.rmtree(root)
+    a, b, torn = root / "a", root / "b", root / "torn"
+    n_b = n_a + extra
+    params = rng.random((n_b, 2))
+    losses = rng.random(n_b)
+    series = rng.random((n_b, 1, 3, 1))
+    sched = RoundRobinScheduler([RandomUniformSampler(batch_size=extra)])
+    loss = MinkowskiLoss()
+    gstate = np.random.default_rng(0).bit_generator.state
+
+    def save(folder, n, batch):
+        save_calibrator_state(folder, np.array([[0.0, 0.0], [1.0, 1.0]]), np.array([0.0001, 0.0001]), np.zeros((3, 1)), 1, 3, 1, None,
+                              False, None, 0, gstate, "m", sched, loss, batch, n, 1, params[:n], losses[:n], series[:n],
+                              np.zeros(n, dtype=int), np.zeros(n, dtype=int))
+
+    def summary(st):
+        return (st[14], st[15], st[17].tobytes(), st[18].tobytes(), st[19].tobytes())
+
+    with contextlib.redirect_stdout(io.StringIO()):
+        save(a, n_a, 1)
+        shutil.copytree(a, b)
+        save(b, n_b, 2)
+    va, vb = summary(load_calibrator_state(a, 1)), summary(load_calibrator_state(b, 1))
+    n = 0
+    for fname in (CSV_NAME, "series_samp.h5"):
+        new = (b / fname).read_bytes()
+        cuts = [c for c in (len(new) // 2, (1 << 20) + 4097, len(new) - 7) if (1 << 20) < c < len(new)]
+        for cut in cuts:
+            if torn.exists():
+                shutil.rmtree(torn)
+            shutil.copytree(a, torn)
+            (torn / fname).write_bytes(new[:cut])
+            n += 1
+            stats["large-file-cut"] += 1
+            try:
+                v = summary(load_calibrator_state(torn, 1))
+            except Exception:  # noqa: BLE001
+                continue
+            if v not in (va, vb):
+                chk.violation({"kind": "hybrid_restore", "crash_after": f"{fname}:cut-beyond-first-MiB"},
+                              {"failed": "oracle:hybrid", "detail": f"{fname} ({len(new)} bytes) cut at byte {cut} over the previous checkpoint "
+                               f"restores silently: n_sampled={v[1]}, batch={v[0]}, {len(v[3]) // 8} losses",
+                               "case": {"large_file_cut": {"file": fname, "byte": cut}}})
+    shutil.rmtree(root, ignore_errors=True)
+    return n
+
+
 def replay_one(chk, rep):
     """Re-run the single crash point stored in a replay file."""
     case = rep["case"]
@@ -633,6 +725,8 @@ def run(chk, replay=None):
     quick = chk.tier == "quick"
     root = SCRATCH / str(os.getpid())
     stats = Counter()
+    n_large = large_file_cuts(chk, stats)
+    n_large += sql_large(chk, stats)
     recs = []
     kinds = ["same_run"] * 4 + ["fresh", "no_new_rows", "other_run_empty"]
     n_sc = 14 if quick else 21
